@@ -230,6 +230,26 @@ def run(ck, pid='C17'):
             expect(ck, ok, f'{pid}.provision_storage', MEM + 'provision_storage', f"refuse:{name}", f"provision_storage Err({name}): must hand the same buffer back, leave the free list unchanged and happen only when the list is full / the buffer is smaller than max_pdu_size")
         ck.sample({'method': 'provision_storage', 'returns': 'Ok' if kinds == [0] else m.err_name(alts[0][1])[0]})
     ck.rule(f'{pid} return paths of the five memory methods over all scenarios', n, 14)
+    # R10: the free list never outgrows its configured capacity: every push onto the list of free buffers happens with room left
+    # (a push onto a full Vec reallocates, after which `capacity() == len()` no longer detects "full" where it used to)
+    npush = 0
+    for (key, tag), a in list(ck.analyses.items()):
+        if not key.startswith(MEM):
+            continue
+        for r in a.events('vec_push'):
+            if len(r.data) < 7:
+                continue
+            W, len0, cap = r.data[4], r.data[5], r.data[6]
+            sv = W.mem.get(r.data[1])
+            if sv is None or 'Box<[u8]>' not in str(sv[2]):
+                continue
+            npush += 1
+            ck.obligations += 1
+            if W.store.entails(le(len0 + 1, cap)):
+                ck.discharged += 1
+            else:
+                ck.finding(f'{pid}.R10', r.site[0], 'push-on-full-list', f"{short(r.site[0])}: a buffer is pushed onto the free list without room having been established (len < capacity): the list can grow beyond its configured capacity and provision_storage stops reporting StorageOverflow", r.site)
+    ck.rule(f'{pid}.R10 pushes onto the free list', npush, 1)
     # ------------------------------------------------------------ R7 contents untouched
     nev = 0
     for (key, tag), an in ck.analyses.items():
